@@ -28,7 +28,7 @@ REQUIRED = {"select.deselected_not_called": {"quick": 3000, "thorough": 150000},
             "select.container_with_selected_not_skipped": {"quick": 500, "thorough": 25000},
             "local.unselected_run_emits_nothing": {"quick": 3000, "thorough": 150000},
             "nontrivial_cases": {"quick": 300, "thorough": 15000}}
-REQUIRED_SEEN = {"second_selection_given_as": ["one_string_of_blank_separated_terms", "list_of_terms"], "tree_shape": ["rule_without_scenarios_in_a_feature_with_scenarios"], "outline_tag_placeholder": ["<t>", "<row.index>", "<examples.index>", "<row.id>", "column_heading_with_punctuation"], "expression_shape": ["bare_wildcard_over_untagged_elements"], "dialect": ["v1", "v2", "none"],
+REQUIRED_SEEN = {"second_selection_given_as": ["one_string_of_blank_separated_terms", "list_of_terms"], "tree_shape": ["rule_without_scenarios_in_a_feature_with_scenarios"], "outline_tag_placeholder": ["<t>", "<row.index>", "<examples.index>", "<row.id>", "column_heading_with_punctuation"], "expression_shape": ["bare_wildcard_over_untagged_elements"], "environment_habit": ["autoretry_recipe"], "dialect": ["v1", "v2", "none"],
                  "tag_name_class": ["contains_operator_word", "contains_hash", "non_ascii_letters"], "outline_name_schema": ["{name}", "{examples.name}"],
                  "process_run_shape": ["toml_tags_plus_command_line", "ini_tags_plus_command_line", "wip_plus_tags"]}
 NSHARDS = {"quick": 16, "thorough": 16}
@@ -78,7 +78,19 @@ def decided_by_inherited(case, pred):
 def run_case(lab, mon, case, sample=False):
     def pre_run(st):
         lab._state = st
-    obs = lab.run(case["program"], args=case["args"], pre_run=pre_run)
+    plugins = []
+    if case.get("autoretry_recipe"):
+        # an environment.py with the documented auto-retry recipe (before_feature patches every scenario / outline of the feature with
+        # behave.contrib.scenario_autoretry): nothing fails here, so what runs is what the tag expression selects -- once
+        def recipe(state, context, name, elem, tag):
+            if name == "before_feature":
+                from behave.contrib.scenario_autoretry import patch_scenario_with_autoretry
+                from behave.model import ScenarioOutline
+                for x in elem.walk_scenarios(with_outlines=True):
+                    if isinstance(x, ScenarioOutline) or not isinstance(getattr(x, "parent", None), ScenarioOutline):
+                        patch_scenario_with_autoretry(x, max_attempts=2)
+        plugins.append(recipe)
+    obs = lab.run(case["program"], args=case["args"], pre_run=pre_run, hook_plugins=plugins)
     pred = runmodel.predict(case["program"], case["cfg"])
     sel = [v for v in pred.selected.values()]
     nontriv = any(sel) and not all(sel) and decided_by_inherited(case, pred)
@@ -324,6 +336,9 @@ def run(spec, mon):
         for ph in ("<row.index>", "<examples.index>", "<row.id>", "<t>"):
             if ph in blob:
                 mon.seen("outline_tag_placeholder", ph)
+        if i % 7 == 3 and not case["cfg"]["dry_run"] and all(oc == "pass" for oc in case["program"]["outcomes"].values()):
+            case = dict(case, autoretry_recipe=True)
+            mon.seen("environment_habit", "autoretry_recipe")
         run_case(lab, mon, case, sample=(i == 1 and spec["shard"] < 2))
         if i % 10 == 5:
             two_selections(lab, mon, rng)
